@@ -185,7 +185,7 @@ func oracle(c *Case, sems []sem) (fs []finding, wbUntil int, stats map[string]in
 				cause = lastSeen
 			}
 			if !acceptable {
-				fs = append(fs, classify(es, best, obs, prev, F, i))
+				fs = append(fs, classify(es, best, prevEntry, obs, prev, F, i))
 			} else {
 				if best != nil && best.stamp >= 0 {
 					stats["oracle-head-is-delivered-event"]++
@@ -228,7 +228,7 @@ func oracle(c *Case, sems []sem) (fs []finding, wbUntil int, stats map[string]in
 				stats["oracle-catchup-scans"]++
 				if top != nil && (obs == nil || (HeadJ{L2: top.L2, Hash: top.Hash, Root: top.Root}) != *obs) &&
 					(c.Stored == nil || c.StoredL1 < top.L1) {
-					fs = append(fs, finding{sig: "l1head-catchup-misses-highest-finalised-log",
+					fs = append(fs, finding{sig: catchupSig(c, obs),
 						what: fmt.Sprintf("completed catch-up (latest %d, finalised %d then %d, chunk %d) left the stored head at %s; the provider's history has the state update of Starknet block %d in L1 block %d",
 							c.Latest, c.Fin1, F, c.Chunk, obs, top.L2, top.L1), at: i})
 				}
@@ -242,6 +242,22 @@ func oracle(c *Case, sems []sem) (fs []finding, wbUntil int, stats map[string]in
 		}
 	}
 	return fs, wbUntil, stats
+}
+
+// catchupSig: a head that is none of the provider's logs is a corrupted value, not a missed log.
+func catchupSig(c *Case, obs *HeadJ) string {
+	if obs == nil {
+		return "l1head-catchup-misses-highest-finalised-log"
+	}
+	if c.Stored != nil && *c.Stored == *obs {
+		return "l1head-catchup-misses-highest-finalised-log"
+	}
+	for _, l := range c.Hist {
+		if (HeadJ{L2: l.L2, Hash: l.Hash, Root: l.Root}) == *obs {
+			return "l1head-catchup-misses-highest-finalised-log"
+		}
+	}
+	return "l1head-unknown-value"
 }
 
 // histWellBehaved: the log history served to the catch-up scan is what eth_getLogs of one canonical
@@ -268,7 +284,7 @@ func histWellBehaved(c *Case) bool {
 	return true
 }
 
-func classify(es []*entry, best *entry, obs, prev *HeadJ, F uint64, at int) finding {
+func classify(es []*entry, best, prevEntry *entry, obs, prev *HeadJ, F uint64, at int) finding {
 	exp := "none"
 	if best != nil {
 		h := best.head()
@@ -303,11 +319,13 @@ func classify(es []*entry, best *entry, obs, prev *HeadJ, F uint64, at int) find
 		return finding{"l1head-is-removed-event", base + "; that event was reported removed by a reorg", at}
 	}
 	for _, cnd := range live {
-		if best != nil && cnd != best && better(best, cnd) &&
-			(best.stamp < 0 || (best.consumed > 0 && cnd.lastDelTik >= best.consumed)) {
+		// "moved back": the head really came from a better event before, and the worse one was
+		// delivered after that event had been recorded
+		if best != nil && cnd != best && better(best, cnd) && prevEntry != nil && better(prevEntry, cnd) &&
+			(prevEntry.stamp < 0 || (prevEntry.consumed > 0 && cnd.lastDelTik >= prevEntry.consumed)) {
 			return finding{"l1head-moves-back-to-late-delivered-older-event",
 				base + fmt.Sprintf("; the event at L1 block %d (Starknet block %d) was delivered after the head had already been set from L1 block %d (Starknet block %d)",
-					cnd.log.L1, cnd.log.L2, best.log.L1, best.log.L2), at}
+					cnd.log.L1, cnd.log.L2, prevEntry.log.L1, prevEntry.log.L2), at}
 		}
 	}
 	if headEq(obs, prev) {
